@@ -665,6 +665,10 @@ where
                             unreachable!("Protocol version should be set before sending PINGREQ");
                         }
                     }
+                } else if self.status == ConnectionStatus::Connecting {
+                    // Nothing can be pinged before the CONNACK, but the keep alive must not be
+                    // lost: arm the timer again with the interval in force.
+                    self.send_post_process(&mut events);
                 }
             }
             TimerKind::PingreqRecv => {
